@@ -259,7 +259,13 @@ def configOp (j : Json) : Except String Res := do
       let n (k : String) : Option Int := (c.getObjVal? k).toOption.bind (·.getInt?.toOption)
       n "timeout" == some r.timeout && n "context" == some r.context && n "cache" == some r.cacheSize
     | _ => true
-  let preds := [("accepted_config_is_safe", safeOk), ("hook_as_configured", hookOk), ("sizes_as_configured", sizesOk)]
+  -- a feed's sources are the ones listed, in the order listed (ties between sources go to the one
+  -- listed first: the order is part of the configuration)
+  let feedsOk : Bool := match raw.getObjVal? "feeds", j.getObjVal? "feeds_parsed" with
+    | .ok want, .ok got => want == got
+    | _, _ => true
+  let preds := [("accepted_config_is_safe", safeOk), ("hook_as_configured", hookOk), ("sizes_as_configured", sizesOk),
+                ("feeds_as_configured", feedsOk)]
   match Config.postprocess r with
   | .error dg => pure { model := Json.mkObj [("reject", Json.str (diagKey dg))], preds := preds }
   | .ok p =>
